@@ -1202,7 +1202,7 @@ def check_rh(rec, case):
 # ---------------------------------------------------------------------------------------
 def gen_lapse_case(rng, nrng):
     n = rng.choice([1, 3, 8, 60, 400])
-    cls = rng.choice(["uniform", "cold", "warm-low-p", "surface"])
+    cls = rng.choice(["uniform", "cold", "warm-low-p", "surface", "hot-thin"])
     if cls == "uniform":
         p = 10.0 ** nrng.uniform(2, math.log10(1.1e5), n)
         T = nrng.uniform(100, 400, n)
@@ -1212,6 +1212,9 @@ def gen_lapse_case(rng, nrng):
     elif cls == "warm-low-p":
         p = 10.0 ** nrng.uniform(2, 4, n)
         T = nrng.uniform(250, 330, n)
+    elif cls == "hot-thin":     # e_s(T) around and above p
+        p = 10.0 ** nrng.uniform(2, 5, n)
+        T = nrng.uniform(250, 400, n)
     else:
         p = nrng.uniform(8e4, 1.1e5, n)
         T = nrng.uniform(230, 320, n)
@@ -1245,7 +1248,28 @@ def check_lapse(rec, case):
         es = magnus(T).astype(LD)
         be = np.full(T.size, 8 * am.U)
     x = (es / p.astype(LD)).astype(float)
-    ok = x <= 0.99                      # statement: e_s(T) < p (saturation mixing ratio defined)
+    ok = x <= 0.99                      # e_s(T) < p: the saturation mixing ratio is defined
+    # where e_s(T) >= p (hot and thin: inside the stated 100..400 K x 1..1100 hPa box) only the bounds
+    # are demanded; the measure-zero set e_s == p, where the mixing ratio is 1/0, is left out
+    sup = ~ok & (np.abs(x - 1) > 1e-6)
+    if sup.any():
+        gd0 = float(C.earth_standard_gravity / C.isobaric_mass_heat_capacity)
+        try:
+            with np.errstate(all="ignore"):
+                gs = np.asarray(atm.moist_lapse_rate(p[sup].copy(), T[sup].copy(), **kw), dtype=float).reshape(-1)
+            rec.ev()
+            rec.count("lapse.supersaturated_elements", int(sup.sum()))
+            badm = ~((gs > 0) & (gs <= gd0 * (1 + 4 * am.U)))
+            if badm.any():
+                j = int(np.argmax(badm))
+                rec.violation("lapse-out-of-bounds", case,
+                              {"index": int(np.flatnonzero(sup)[j]), "container": "1d", "p": float(p[sup][j]),
+                               "T": float(T[sup][j]), "got": float(gs[j]), "dry": gd0,
+                               "e_s_over_p": float(x[sup][j])})
+        except ContractBreach as exc:
+            rec.violation(exc.key, case, exc.detail)
+        except Exception as exc:
+            rec.violation(_exc_key(exc, "lapse-exception", case), case, _exc_detail(exc))
     if not ok.any():
         return
     p, T, es, be, x = p[ok], T[ok], es[ok], be[ok], x[ok]
